@@ -80,8 +80,9 @@ func c18Alphabet(addrs []string) func(w *world) []cev {
 					out = append(out, cev{K: "pp", Node: "x", Inc: inc, State: "alive", Addr: ad, Meta: "m0", Vsn: "ok", Join: true})
 				}
 			}
-			// ... a zoned link-local address and a host name: sources whose host is not an IP literal are not allowed
-			for _, src := range []string{"192.168.1.1:7946", "pipe", "[2001:db8::1]:7946", "[fe80::bad%eth0]:7946", "gw.example:7946"} {
+			// ... a zoned link-local address and a host name: sources whose host is not an IP literal are not allowed;
+			// nor are disallowed addresses that a custom transport renders without a port
+			for _, src := range []string{"192.168.1.1:7946", "pipe", "[2001:db8::1]:7946", "[fe80::bad%eth0]:7946", "gw.example:7946", "192.168.1.1", "2001:db8::1"} {
 				for _, ad := range []string{"A", "X4"} {
 					out = append(out, cev{K: "alive", Node: "x", Inc: inc, Addr: ad, Meta: "m0", Vsn: "ok", Carrier: "pkt", Src: src})
 				}
